@@ -233,8 +233,8 @@ def addRequire (m : KMap) (r : Str × Str) : KMap :=
 def applyReplace (m : KMap) (rp : Replace) : KMap :=
   let new : NV := ⟨rp.newPath, trimPrefixV rp.newVersion⟩
   if rp.oldVersion.isEmpty then
-    -- all entries whose CURRENT name is the old path
-    m.map fun kv => if kv.2.name = rp.oldPath then (kv.1, new) else kv
+    -- all entries REQUIRED under the old path (the key): the result of a replacement is not replaced again
+    m.map fun kv => if kv.1.1 = rp.oldPath then (kv.1, new) else kv
   else
     -- only the entry stored under the ORIGINAL key (old path, old version)
     let k := (rp.oldPath, trimPrefixV rp.oldVersion)
@@ -247,10 +247,14 @@ def toolchainVersion (t : Str) : Str :=
 
 def stdlibVersion (d : Doc) : Str := if !d.toolchain.isEmpty then toolchainVersion d.toolchain else d.goVersion
 
+/-- the order the directives are applied in: the wildcard ones first, the version-specific ones overwrite them -/
+def ordered (d : Doc) : List Replace :=
+  d.replaces.filter (fun rp => rp.oldVersion.isEmpty) ++ d.replaces.filter (fun rp => !rp.oldVersion.isEmpty)
+
 /-- `extractGoMod` (the go.sum branch for go < 1.17 needs a sibling file and is outside the model) -/
 def extract (d : Doc) : List NV :=
   let m0 := d.requires.foldl addRequire []
-  let m1 := d.replaces.foldl applyReplace m0
+  let m1 := (ordered d).foldl applyReplace m0
   let sv := stdlibVersion d
   let m2 := if sv.isEmpty then m1 else set m1 ("stdlib".toList, []) ⟨"stdlib".toList, sv⟩
   -- final de-duplication pass keyed by the CURRENT (name, version)
